@@ -8,3 +8,7 @@ if [ -f /verif/.wire-enabled ]; then
     cd /repo && cargo build --offline --bins --target-dir /verif/harness/target/repo
 fi
 echo setup done
+
+# coverage-guided targets (thorough tiers of C05, C14, C19 only); a failure here only makes that
+# tier unavailable, so it must not fail the setup
+(cd /verif && CARGO_NET_OFFLINE=true cargo +nightly fuzz build --fuzz-dir /verif/fuzz >/dev/null 2>&1) || echo "note: libFuzzer targets not built"
